@@ -149,7 +149,7 @@ class MolQueryReader(object):
             assert tree[1][0].name == 'AtomConstraintChain'
             self.ReadAtomConstraintChain(tree[1][1:], molquery, idx)
 
-    def ReadAtomSuffix(self, tree, atom):
+    def ReadAtomSuffix(self, tree, atom, symbol=None):
         constraint = None
         # '+','-','.',':','+.','-.','*'
         if tree[0] == '+.':
@@ -170,8 +170,15 @@ class MolQueryReader(object):
             constraint = AtomRadical(False, ConstraintNumber('=3'))
         elif tree[0] == '*':
             from rdkit.Chem import GetPeriodicTable
-            atomicnum = atom.GetAtomicNum()
-            atom = rdqueries.AtomNumEqualsQueryAtom(atomicnum)
+            # The element comes from the symbol (a query atom reports atomic
+            # number 0), and the caller's query atom is extended (a new local
+            # query atom would be lost: only the constraint is returned).
+            try:
+                atomicnum = Chem.Atom(symbol[0].upper()
+                                      + symbol[1:]).GetAtomicNum()
+            except (RuntimeError, TypeError, IndexError):
+                raise NotImplementedError("Atom suffix '*' needs an element"
+                                          " symbol")
             valence = GetPeriodicTable().GetDefaultValence(atomicnum)
             atom.ExpandQuery(rdqueries.TotalValenceEqualsQueryAtom(valence+1))
             atom.ExpandQuery(rdqueries.FormalChargeEqualsQueryAtom(1))
@@ -240,10 +247,11 @@ class MolQueryReader(object):
 
         assert tree[i][0].name == 'Symbols'
         atom = self.ReadSymbols(tree[i][1:])
+        symbol = tree[i][1]
         i += 1
 
         if len(tree) > i:
-            constraint = self.ReadAtomSuffix(tree[i][1:], atom)
+            constraint = self.ReadAtomSuffix(tree[i][1:], atom, symbol)
             if constraint:
                 constraints.append(constraint)
         else:
